@@ -61,21 +61,6 @@ Section Table.
         subst y. specialize (L2 _ Hy). lia.
   Qed.
 
-  Lemma tins_In x l y : In y (tins key x l) <-> In y l \/ (y = x /\ tmem key (key x) l = false).
-  Proof.
-    induction l as [|z t IH]; cbn.
-    - intuition.
-    - destruct (key x <? key z)%N eqn:E1; cbn.
-      + destruct (key x =? key z)%N eqn:E2; [lia|]. cbn.
-        split.
-        * intros [<-|[<-|H]]; auto.
-          right. split; [reflexivity|].
-          (* need tmem (key x) t = false: not derivable without sortedness; handled below *)
-          admit.
-        * intros [[<-|H]|[-> _]]; auto.
-      + admit.
-  Abort.
-
   (* with sortedness *)
   Lemma tins_spec x l : ssorted l ->
     ssorted (tins key x l) /\
@@ -237,8 +222,8 @@ Definition scur (rows : series) : N := sread rows (smaxkey rows).
 
 Lemma sread_cur rows t : (smaxkey rows <= t)%N -> sread rows t = scur rows.
 Proof.
-  intros H. unfold scur, sread. rewrite (latest_from_indep rows t (smaxkey rows) None); [reflexivity| |].
-  - intros k v Hin. pose proof (smaxkey_bound rows Hin). lia.
+  intros H. unfold scur, sread. rewrite (@latest_from_indep rows t (smaxkey rows) None); [reflexivity| |].
+  - intros k v Hin. pose proof (smaxkey_bound rows _ _ Hin). lia.
   - apply smaxkey_bound.
 Qed.
 
@@ -248,7 +233,7 @@ Proof.
   - (* every key of the new table is <= b *)
     assert (keys_le (aset b v rows) b) as Hk.
     { intros k' v' Hin. destruct (aset_keys _ _ _ _ _ Hin) as [->|Hin']; [lia|].
-      pose proof (smaxkey_bound rows Hin'). lia. }
+      pose proof (smaxkey_bound rows _ _ Hin'). lia. }
     clear H. unfold smaxkey. generalize (aset b v rows) Hk. intros l Hl.
     assert (forall m, (m <= b)%N -> (fold_left (fun m (kv : N * N) => N.max m (fst kv)) l m <= b)%N) as G.
     { induction l as [|[k v2] t IH]; intros m Hm; cbn; [exact Hm|].
@@ -258,15 +243,15 @@ Proof.
   - assert (In (b, v) (aset b v rows)) as Hin.
     { clear H. induction rows as [|[k v2] t IH]; cbn; [left; reflexivity|].
       destruct (b =? k)%N; cbn; [left; reflexivity|right; exact IH]. }
-    exact (smaxkey_bound (aset b v rows) Hin).
+    exact (smaxkey_bound (aset b v rows) _ _ Hin).
 Qed.
 
 Lemma scur_aset rows b v : (smaxkey rows <= b)%N -> scur (aset b v rows) = v.
 Proof.
   intros H. unfold scur. rewrite (smaxkey_aset rows v H). unfold sread.
-  rewrite (latest_from_max (aset b v rows) (t:=b) None (b:=b) (v:=v)); auto.
+  rewrite (@latest_from_max (aset b v rows) b None b v); auto.
   - intros k' v' Hin. destruct (aset_keys _ _ _ _ _ Hin) as [->|Hin']; [lia|].
-    pose proof (smaxkey_bound rows Hin'). lia.
+    pose proof (smaxkey_bound rows _ _ Hin'). lia.
   - lia.
   - apply alookup_aset_same.
 Qed.
@@ -289,3 +274,19 @@ Proof.
     + unfold cadd. destruct (scur rows + delta <? two128)%N; cbn; [|discriminate]. intros [= <-].
       rewrite smaxkey_aset, scur_aset by exact Hb. lia.
 Qed.
+
+(* predictable argument lists: only the row type is implicit *)
+Arguments tmem_In [A] key k l.
+Arguments tmem_false_In [A] key k l.
+Arguments ssorted_unique [A] key l x y _ _ _ _.
+Arguments ssorted_ext [A] key l1 l2 _ _ _.
+Arguments tins_spec [A] key x l _.
+Arguments tdel_spec [A] key k l l' _ _.
+Arguments tdel_none [A] key k l _.
+Arguments tdel_some [A] key k l _.
+Arguments wsum_tins [A] w key x l _ _.
+Arguments wsum_tdel [A] w key x l l' _ _ _.
+Arguments sincr_spec : clear implicits.
+Arguments sread_cur : clear implicits.
+Arguments smaxkey_aset : clear implicits.
+Arguments scur_aset : clear implicits.
